@@ -3,7 +3,6 @@ package cmd
 import (
 	"fmt"
 	"os"
-	"strconv"
 	"strings"
 
 	"github.com/ajitpratap0/GoSQLX/pkg/sql/ast"
@@ -600,273 +599,19 @@ func (f *SQLFormatter) formatJoin(join *ast.JoinClause) error {
 	return nil
 }
 
-// formatExpression formats SQL expressions
+// formatExpression formats SQL expressions. Expressions are rendered by the AST's own serialiser
+// (SQL()), which adds the parentheses, quotes and escapes the text needs to parse back to the same
+// tree; expressions are kept on one line.
 func (f *SQLFormatter) formatExpression(expr ast.Expression) error {
-	switch e := expr.(type) {
-	case *ast.Identifier:
-		if e.Table != "" {
-			f.builder.WriteString(e.Table + ".")
-		}
-		f.builder.WriteString(e.Name)
-	case *ast.LiteralValue:
-		// Handle string literals with proper quoting
-		switch e.Type {
-		case "string", "STRING":
-			// Escape single quotes in the string value and wrap in quotes
-			// Use type assertion for efficiency instead of fmt.Sprintf
-			var strVal string
-			if str, ok := e.Value.(string); ok {
-				strVal = str
-			} else {
-				strVal = fmt.Sprintf("%v", e.Value)
-			}
-			escaped := strings.ReplaceAll(strVal, "'", "''")
-			f.builder.WriteString("'")
-			f.builder.WriteString(escaped)
-			f.builder.WriteString("'")
-		case "null", "NULL":
-			f.writeKeyword("NULL")
-		default:
-			// For non-string types, use type assertions for common types
-			switch v := e.Value.(type) {
-			case string:
-				f.builder.WriteString(v)
-			case int:
-				f.builder.WriteString(strconv.Itoa(v))
-			case int64:
-				f.builder.WriteString(strconv.FormatInt(v, 10))
-			case float64:
-				f.builder.WriteString(strconv.FormatFloat(v, 'f', -1, 64))
-			case bool:
-				if v {
-					f.writeKeyword("TRUE")
-				} else {
-					f.writeKeyword("FALSE")
-				}
-			default:
-				f.builder.WriteString(fmt.Sprintf("%v", e.Value))
-			}
-		}
-	case *ast.BinaryExpression:
-		// Handle IS NULL / IS NOT NULL specially
-		if e.Operator == "IS NULL" {
-			if err := f.formatExpression(e.Left); err != nil {
-				return err
-			}
-			if e.Not {
-				f.builder.WriteString(" IS NOT NULL")
-			} else {
-				f.builder.WriteString(" IS NULL")
-			}
-			return nil
-		}
-		// Handle LIKE operator
-		if e.Operator == "LIKE" {
-			if err := f.formatExpression(e.Left); err != nil {
-				return err
-			}
-			if e.Not {
-				f.builder.WriteString(" NOT LIKE ")
-			} else {
-				f.builder.WriteString(" LIKE ")
-			}
-			if err := f.formatExpression(e.Right); err != nil {
-				return err
-			}
-			return nil
-		}
-		// Standard binary expression
-		if err := f.formatExpression(e.Left); err != nil {
-			return err
-		}
-		f.builder.WriteString(" " + e.Operator + " ")
-		if err := f.formatExpression(e.Right); err != nil {
-			return err
-		}
-	case *ast.FunctionCall:
-		f.builder.WriteString(e.Name + "(")
-		if e.Distinct {
-			f.writeKeyword("DISTINCT")
-			f.builder.WriteString(" ")
-		}
-		f.formatExpressionList(e.Arguments, ", ")
-
-		// ORDER BY inside aggregate functions (STRING_AGG, ARRAY_AGG, etc.)
-		if len(e.OrderBy) > 0 {
-			f.builder.WriteString(" ")
-			f.writeKeyword("ORDER BY")
-			f.builder.WriteString(" ")
-			for i, orderBy := range e.OrderBy {
-				if i > 0 {
-					f.builder.WriteString(", ")
-				}
-				if err := f.formatExpression(orderBy.Expression); err != nil {
-					return err
-				}
-				if !orderBy.Ascending {
-					f.builder.WriteString(" ")
-					f.writeKeyword("DESC")
-				}
-				if orderBy.NullsFirst != nil {
-					f.builder.WriteString(" ")
-					f.writeKeyword("NULLS")
-					f.builder.WriteString(" ")
-					if *orderBy.NullsFirst {
-						f.writeKeyword("FIRST")
-					} else {
-						f.writeKeyword("LAST")
-					}
-				}
-			}
-		}
-
-		f.builder.WriteString(")")
-
-		// Filter clause (SQL:2003 T612)
-		if e.Filter != nil {
-			f.builder.WriteString(" ")
-			f.writeKeyword("FILTER")
-			f.builder.WriteString(" (")
-			f.writeKeyword("WHERE")
-			f.builder.WriteString(" ")
-			if err := f.formatExpression(e.Filter); err != nil {
-				return err
-			}
-			f.builder.WriteString(")")
-		}
-
-		// Window function (OVER clause)
-		if e.Over != nil {
-			f.builder.WriteString(" ")
-			f.writeKeyword("OVER")
-			f.builder.WriteString(" (")
-			if err := f.formatWindowSpec(e.Over); err != nil {
-				return err
-			}
-			f.builder.WriteString(")")
-		}
-	case *ast.CaseExpression:
-		f.writeKeyword("CASE")
-		if e.Value != nil {
-			f.builder.WriteString(" ")
-			if err := f.formatExpression(e.Value); err != nil {
-				return err
-			}
-		}
-
-		for _, when := range e.WhenClauses {
-			f.builder.WriteString(" ")
-			f.writeKeyword("WHEN")
-			f.builder.WriteString(" ")
-			if err := f.formatExpression(when.Condition); err != nil {
-				return err
-			}
-			f.builder.WriteString(" ")
-			f.writeKeyword("THEN")
-			f.builder.WriteString(" ")
-			if err := f.formatExpression(when.Result); err != nil {
-				return err
-			}
-		}
-
-		if e.ElseClause != nil {
-			f.builder.WriteString(" ")
-			f.writeKeyword("ELSE")
-			f.builder.WriteString(" ")
-			if err := f.formatExpression(e.ElseClause); err != nil {
-				return err
-			}
-		}
-		f.builder.WriteString(" ")
-		f.writeKeyword("END")
-	case *ast.BetweenExpression:
-		// Handle BETWEEN expr AND expr
-		if err := f.formatExpression(e.Expr); err != nil {
-			return err
-		}
-		if e.Not {
-			f.builder.WriteString(" ")
-			f.writeKeyword("NOT BETWEEN")
-		} else {
-			f.builder.WriteString(" ")
-			f.writeKeyword("BETWEEN")
-		}
-		f.builder.WriteString(" ")
-		if err := f.formatExpression(e.Lower); err != nil {
-			return err
-		}
-		f.builder.WriteString(" ")
-		f.writeKeyword("AND")
-		f.builder.WriteString(" ")
-		if err := f.formatExpression(e.Upper); err != nil {
-			return err
-		}
-	case *ast.InExpression:
-		// Handle IN (values) or IN (subquery)
-		if err := f.formatExpression(e.Expr); err != nil {
-			return err
-		}
-		if e.Not {
-			f.builder.WriteString(" ")
-			f.writeKeyword("NOT IN")
-		} else {
-			f.builder.WriteString(" ")
-			f.writeKeyword("IN")
-		}
-		f.builder.WriteString(" (")
-		if e.Subquery != nil {
-			// IN (SELECT ...)
-			if selectStmt, ok := e.Subquery.(*ast.SelectStatement); ok {
-				if err := f.formatSelect(selectStmt); err != nil {
-					return err
-				}
-			}
-		} else {
-			// IN (value1, value2, ...)
-			f.formatExpressionList(e.List, ", ")
-		}
-		f.builder.WriteString(")")
-	case *ast.ExistsExpression:
-		// Handle EXISTS (subquery) - NOT EXISTS is handled via UnaryExpression
-		f.writeKeyword("EXISTS")
-		f.builder.WriteString(" (")
-		if selectStmt, ok := e.Subquery.(*ast.SelectStatement); ok {
-			if err := f.formatSelect(selectStmt); err != nil {
-				return err
-			}
-		}
-		f.builder.WriteString(")")
-	case *ast.SubqueryExpression:
-		// Handle scalar subquery (SELECT ...)
-		f.builder.WriteString("(")
-		if selectStmt, ok := e.Subquery.(*ast.SelectStatement); ok {
-			if err := f.formatSelect(selectStmt); err != nil {
-				return err
-			}
-		}
-		f.builder.WriteString(")")
-	case *ast.UnaryExpression:
-		// Handle NOT expr, - expr, etc.
-		f.builder.WriteString(e.Operator.String())
-		f.builder.WriteString(" ")
-		if err := f.formatExpression(e.Expr); err != nil {
-			return err
-		}
-	case *ast.AliasedExpression:
-		// Handle expr AS alias
-		if err := f.formatExpression(e.Expr); err != nil {
-			return err
-		}
-		f.builder.WriteString(" ")
-		f.writeKeyword("AS")
-		f.builder.WriteString(" ")
-		// Quote alias if it contains special characters or is a reserved keyword
-		f.formatIdentifier(e.Alias)
-	default:
-		// Fallback for unsupported expressions
-		f.builder.WriteString(expr.TokenLiteral())
+	if expr == nil {
+		return nil
 	}
-
+	if s, ok := expr.(interface{ SQL() string }); ok {
+		f.builder.WriteString(s.SQL())
+		return nil
+	}
+	// Fallback for expression types without a serialiser
+	f.builder.WriteString(expr.TokenLiteral())
 	return nil
 }
 
